@@ -9,10 +9,15 @@ VARIABLE l
 Failing(r) ==
   LET N == 1..r.n  E == {<<r.edges[i][1], r.edges[i][2]>> : i \in 1..Len(r.edges)}
       num == [k \in N |-> r.num[k]] IN
-  IF Reach(E) # N THEN {"generator-graph-not-rooted"}
+  IF r.deep THEN      \* a ladder (r.edges is empty): closed forms, checked against the definitions on small instances by the ASSUME below
+       (IF [k \in N |-> r.idom[k]] = LadderIDom(r.n) THEN {} ELSE {"C18.immediate-dominators"})
+       \cup (IF num = LadderNum(r.n) THEN {} ELSE {"C19.valid-rpo"})
+  ELSE IF Reach(E) # N THEN {"generator-graph-not-rooted"}
   ELSE (IF [k \in N |-> r.idom[k]] = IDomFast(E, N) THEN {} ELSE {"C18.immediate-dominators"})
        \cup (IF r.full THEN (IF ValidRPO(E, N, num) THEN {} ELSE {"C19.valid-rpo"})
              ELSE (IF ForwardAcrossComponents(E, N, num) THEN {} ELSE {"C19.forward-across-components"}))
+ASSUME \A n \in 2..5 : /\ IDomFast(LadderEdges(n), 1..n) = LadderIDom(n)
+                        /\ \A num \in [1..n -> 1..n] : ValidRPO(LadderEdges(n), 1..n, num) <=> num = LadderNum(n)
 Init == l = 1
 Next == /\ l <= Len(Tr)
         /\ LET f == Failing(Tr[l]) IN IF f = {} THEN TRUE ELSE PrintT(<<"REJECT", l, f>>)
